@@ -48,5 +48,23 @@ __CPROVER_ensures(/*children-enqueued-iff-depth-below-the-limit*/ gh_enq == (gh_
 __CPROVER_ensures(/*never-throws*/ nix_exc == EXC_NONE)
 NIX_CANARY(source_bfs_step) __CPROVER_assigns(nix_exc, gh_pops, gh_filter_calls, gh_filter_node, gh_res_pushes, gh_res_node, gh_enq, gh_children_of)
 ;
+/* Block::findSources (src/Block.cpp): the search started at the block - the body of its loop over the top-level sources (region unit).
+   Each top-level source's own search (which reports the source itself at level 0: source_bfs_step above) is asked exactly once, from that source, with the
+   SAME filter and the SAME depth limit, and its answer is appended to the result.  NOT decided: the loop header (Block::sources() in index order). */
+typedef struct { int serial; size_t n; } vec_SourceA;          /* a search answer as a value */
+extern int gh_bs_calls, gh_bs_node, gh_bs_filter, gh_bs_appends, gh_bs_append_serial; extern size_t gh_bs_depth;
+#define BS_FILTER_ID 6
+#define BS_SERIAL 17
+static inline vec_SourceA Source_findSources_a(const Source *s, const SourceFilterFn *f, size_t depth)
+{ gh_bs_calls++; gh_bs_node = s->node; gh_bs_filter = f->_f; gh_bs_depth = depth; vec_SourceA v; v.serial = BS_SERIAL; v.n = 0; return v; }
+static inline void vec_Source_append(vec_Source *dst, const vec_SourceA *src)
+{ gh_bs_appends++; gh_bs_append_serial = src->serial; }
+void block_find_probe(const SourceFilterFn *filter, size_t max_depth, const Source *probe, vec_SourceA *matches, vec_Source *result)
+__CPROVER_requires(__CPROVER_is_fresh(filter, sizeof(SourceFilterFn)) && filter->_f == BS_FILTER_ID && __CPROVER_is_fresh(probe, sizeof(Source)) && probe->node >= 0 && __CPROVER_is_fresh(matches, sizeof(vec_SourceA)) &&
+                   __CPROVER_is_fresh(result, sizeof(vec_Source)) && gh_bs_calls == 0 && gh_bs_appends == 0 && nix_exc == EXC_NONE)
+__CPROVER_ensures(/*the-top-level-source-is-searched-once-with-the-same-filter-and-the-same-depth-limit*/ gh_bs_calls == 1 && gh_bs_node == probe->node && gh_bs_filter == BS_FILTER_ID && gh_bs_depth == max_depth)
+__CPROVER_ensures(/*its-answer-is-appended-to-the-result*/ gh_bs_appends == 1 && gh_bs_append_serial == BS_SERIAL && nix_exc == EXC_NONE)
+NIX_CANARY(block_find_probe) __CPROVER_assigns(nix_exc, gh_bs_calls, gh_bs_node, gh_bs_filter, gh_bs_depth, gh_bs_appends, gh_bs_append_serial; *matches)
+;
 #undef RV
 #endif
